@@ -54,20 +54,42 @@ def gen_cases(rng, tier, drift):
         elif cfg["kind"] == "map" and cfg["n"] > 0 and rng.random() < 0.6:
             # the library's own stateful RandomSampler, with replacement (32-chunks) or more samples than items
             repl = rng.random() < 0.5
-            cfg["sampler"] = dict(replacement=repl, num_samples=rng.choice([None, cfg["n"] + rng.randint(1, 9), 40, 70]) if not repl else rng.choice([35, 50, 70]))
+            cfg["sampler"] = dict(replacement=repl, num_samples=rng.choice([None, cfg["n"] + rng.randint(1, 9), 40, 70]) if not repl else rng.choice([35, 37, 50, 53, 70]))
             cfg["gseed"] = rng.randint(0, 999)
+            if rng.random() < 0.5:
+                cfg["I"] = rng.choice([2, 3, 5, 7])     # long stretches between snapshots: a state near the end lies well past the last one
         L = len(si.batches_ref(cfg))
         if cfg.get("sampler"):
             ns = cfg["sampler"]["num_samples"] or cfg["n"]
             bs = cfg["bs"] or 1
             L = ns // bs if (cfg["drop"] and cfg["bs"]) else -(-ns // bs)
-        k = rng.choice([0, L, rng.randint(0, L), rng.randint(0, L)])
+        k = rng.choice([0, L, L, rng.randint(0, L), rng.randint(0, L)])
         chain, pos = [], k
         for _ in range(rng.choice([0, 1, 2])):
             j = rng.randint(0, L - pos)
             chain.append(j)
             pos += j
-        cases.append(dict(kind="free", cfg=cfg, k=k, chain=chain))
+        # fin: the consumer has SEEN the end of the epoch (StopIteration) before taking the last state: the resumed loader starts the NEXT epoch
+        cases.append(dict(kind="free", cfg=cfg, k=k, chain=chain, fin=(k + sum(chain) == L and rng.random() < 0.6 and not (cfg["W"] == 0 and cfg.get("shuffle")))))
+    n_e = 30 if tier == "quick" and not drift else 300
+    for _ in range(n_e):
+        # states taken AFTER the end of an epoch was seen (or at its last batches), with snapshots far apart and a sampler whose
+        # state advances while it is consumed: the resumed loader's next epochs must be the uninterrupted loader's next epochs
+        cfg = si.gen_cfg(rng, kinds=("map",))
+        cfg["n"] = rng.randint(5, 12)
+        cfg["W"], cfg["P"], cfg["I"] = rng.choice([1, 2]), rng.choice([1, 2]), rng.choice([3, 5, 7, 10])
+        cfg["persistent"] = rng.random() < 0.3
+        cfg["gseed"] = rng.randint(0, 999)
+        if rng.random() < 0.7:
+            repl = rng.random() < 0.6
+            cfg["sampler"] = dict(replacement=repl, num_samples=rng.choice([35, 37, 50, 53]) if repl else rng.choice([None, cfg["n"] + rng.randint(1, 9), 40]))
+        else:
+            cfg["shuffle"] = True
+        ns = (cfg.get("sampler") or {}).get("num_samples") or cfg["n"]
+        bs = cfg["bs"] or 1
+        L = ns // bs if (cfg["drop"] and cfg["bs"]) else -(-ns // bs)
+        k = rng.choice([L, L, max(0, L - 1), max(0, L - 2)])
+        cases.append(dict(kind="free", cfg=cfg, k=k, chain=[], fin=(k == L and rng.random() < 0.8)))
     return cases
 
 
@@ -120,7 +142,7 @@ def run_impl(c):
         def mk():
             return si.make_loader(cfg)
         dl = mk()
-        refs = [[si.norm_batch(b) for b in dl] for _ in range(3)]
+        refs = [[si.norm_batch(b) for b in dl] for _ in range(4)]
         L = len(refs[0])
         dl = mk()
         it = iter(dl)
@@ -133,6 +155,14 @@ def run_impl(c):
             seen += [si.norm_batch(next(it)) for _ in range(j)]
             sd = dl.state_dict()
         consumed = c["k"] + sum(c["chain"])
+        fin = bool(c.get("fin")) and consumed == L
+        if fin:
+            try:
+                next(it)
+                fails.append("no StopIteration after the last batch")
+            except StopIteration:
+                pass
+            sd = dl.state_dict()
         del it
         dl = mk()
         dl.load_state_dict(sd)
@@ -141,10 +171,15 @@ def run_impl(c):
         nxt2 = [si.norm_batch(b) for b in dl]
         if seen != refs[0][:consumed]:
             fails.append(f"batches before the final resume {seen} != {refs[0][:consumed]}")
-        if rest != refs[0][consumed:]:
-            fails.append(f"resumed at {consumed}: got {rest}, uninterrupted remainder {refs[0][consumed:]}")
-        if nxt != refs[1] or nxt2 != refs[2]:
-            fails.append(f"FOLLOWING epochs after the resumed one differ: {nxt},{nxt2} vs {refs[1]},{refs[2]}")
+        if fin:
+            # a state taken after the end of the epoch was seen resumes into the next epoch
+            if [rest, nxt, nxt2] != refs[1:4]:
+                fails.append(f"state taken after the end of epoch 0: the resumed loader yields {rest},{nxt},{nxt2}; the uninterrupted loader's next epochs are {refs[1]},{refs[2]},{refs[3]}")
+        else:
+            if rest != refs[0][consumed:]:
+                fails.append(f"resumed at {consumed}: got {rest}, uninterrupted remainder {refs[0][consumed:]}")
+            if nxt != refs[1] or nxt2 != refs[2]:
+                fails.append(f"FOLLOWING epochs after the resumed one differ: {nxt},{nxt2} vs {refs[1]},{refs[2]}")
         del dl
         return dict(oracle="; ".join(fails[:2]) or None, nontrivial=0 < consumed < L, key=[cfg, c["k"], c["chain"]],
                     following_only=bool(fails) and all(f.startswith("FOLLOWING") for f in fails))
